@@ -1,4 +1,5 @@
 import ProductMD.Proofs.C08History
+import ProductMD.Model.BuilderSlots
 /-!
 C08 for whole histories, the three builders: each `add` (the interpreted statement list of the source, through
 `Rpms.add_eq` / `Modules.add_eq` / `ExtraFiles.add_eq`) satisfies `Hist.Commutes` for the independence relation "not the same
@@ -61,7 +62,7 @@ theorem nodupAll_rpmRecord (sk : Option Str) (path cat : Str) : NodupAll (rpmRec
   refine ⟨by decide, ?_⟩
   cases sk <;> simp [optStr, NodupAll]
 
-theorem rpmsCheck_record (a : RpmsArgs) (p : RpmsPlan) (h : rpmsCheck a = .ok p) : NodupAll p.record := by
+theorem rpmsCheck_record_nodup (a : RpmsArgs) (p : RpmsPlan) (h : rpmsCheck a = .ok p) : NodupAll p.record := by
   unfold rpmsCheck at h
   repeat' split at h
   all_goals first
@@ -69,19 +70,13 @@ theorem rpmsCheck_record (a : RpmsArgs) (p : RpmsPlan) (h : rpmsCheck a = .ok p)
     | cases h
     | (generalize Except.map _ _ = r at h; cases r <;> first | (cases h; exact nodupAll_rpmRecord _ _ _) | cases h)
 
-/-- the slot an accepted `Rpms.add` call writes: `rpms[variant][arch][srpm][nevra]`; a refused call writes nothing -/
-def rpmsSlot (a : RpmsArgs) : Option (List Str) :=
-  match rpmsCheck a with
-  | .ok p => some [a.variant, a.arch, p.srpmKey, p.key]
-  | .error _ => none
-
 theorem rpms_commutes : Hist.Commutes Rpms.add (CellIndep rpmsSlot) where
   inv := by
     intro s a hs
     rw [Rpms.add_eq]
     cases hc : rpmsCheck a with
     | error e => exact hs
-    | ok p => exact setPathS_nodupAll _ (rpmsLeaf_nodup _ _ (rpmsCheck_record a p hc)) _ s hs
+    | ok p => exact setPathS_nodupAll _ (rpmsLeaf_nodup _ _ (rpmsCheck_record_nodup a p hc)) _ s hs
   congr := by
     intro s s' a hs hj
     rw [Rpms.add_eq, Rpms.add_eq]
@@ -219,18 +214,12 @@ theorem nodupAll_moduleMetadata (uid : Str) (u : UidParts) (tag : Str) : NodupAl
   simp only [NodupAll, NodupAllK, List.map_cons, List.map_nil]
   exact ⟨by decide, by simp⟩
 
-theorem modulesCheck_metadata (a : ModulesArgs) (p : ModulesPlan) (h : modulesCheck a = .ok p) : NodupAll p.metadata := by
+theorem modulesCheck_metadata_nodup (a : ModulesArgs) (p : ModulesPlan) (h : modulesCheck a = .ok p) : NodupAll p.metadata := by
   unfold modulesCheck at h
   repeat' split at h
   all_goals first
     | (cases h; exact nodupAll_moduleMetadata _ _ _)
     | cases h
-
-/-- the entry an accepted `Modules.add` call extends: `modules[variant][arch][uid]` -/
-def modulesSlot (a : ModulesArgs) : Option (List Str) :=
-  match modulesCheck a with
-  | .ok p => some [a.variant, a.arch, p.uid]
-  | .error _ => none
 
 theorem modules_commutes : Hist.Commutes Modules.add (CellIndep modulesSlot) where
   inv := by
@@ -238,13 +227,13 @@ theorem modules_commutes : Hist.Commutes Modules.add (CellIndep modulesSlot) whe
     rw [Modules.add_eq]
     cases hc : modulesCheck a with
     | error e => exact hs
-    | ok p => exact setPathS_nodupAll _ (modulesLeaf_nodup _ (modulesCheck_metadata a p hc)) _ s hs
+    | ok p => exact setPathS_nodupAll _ (modulesLeaf_nodup _ (modulesCheck_metadata_nodup a p hc)) _ s hs
   congr := by
     intro s s' a hs hj
     rw [Modules.add_eq, Modules.add_eq]
     cases hc : modulesCheck a with
     | error e => exact ⟨hj, rfl⟩
-    | ok p => exact setPathS_jeq _ (fun x y => modulesLeaf_jeq _ (modulesCheck_metadata a p hc) x y) _ s s' hs hj
+    | ok p => exact setPathS_jeq _ (fun x y => modulesLeaf_jeq _ (modulesCheck_metadata_nodup a p hc) x y) _ s s' hs hj
   swap := by
     intro s a b hs hi
     simp only [Modules.add_eq]
@@ -347,12 +336,6 @@ theorem extraLeaf_comm (a1 a2 : Str) (r1 r2 : PyVal) (hne : a1 ≠ a2) (x : PyVa
   · have hv' : ∀ e, x ≠ .dict e := fun e h => hv ⟨e, h⟩
     simp only [extraLeaf_nondict _ _ x hv']
     exact ⟨.refl _, trivial, trivial⟩
-
-/-- the entry list an accepted `ExtraFiles.add` call appends to: `extra_files[variant][arch]` -/
-def extraSlot (a : ExtraArgs) : Option (List Str) :=
-  match extraCheck a with
-  | .ok _ => some [a.variant, a.arch]
-  | .error _ => none
 
 theorem extra_commutes : Hist.Commutes ExtraFiles.add (CellIndep extraSlot) where
   inv := by
